@@ -386,7 +386,7 @@ def compare_views(ctx, rep, obs, ans):
 
 def run(ctx: Ctx):
     cl.setup()
-    n = ctx.scale(24, 600)
+    n = ctx.scale(24, 220)
     for i in range(n):
         if ctx.thorough:
             check_pair(ctx, gen_pair(ctx.rng))
